@@ -1039,13 +1039,14 @@ impl<'ast, 'r, 'a> Visit<'ast> for Collector<'r, 'a> {
                 self.rw.log.push(format!("R63 E.into_iter().enumerate().map(..).collect() -> loop {key} over the vector of E's items"));
                 self.edits.push(Edit { range: rng(e), text: format!("{{ let __src = __indexset_into_vec({src}); let ghost __src_g = __src@; let mut __out{out_ty} = Vec::new(); for {ipat} in {iter}0..__src.len() {hdr}{{ {bs}let {epat} = __src[{ipat}]; __out.push({body}); {be}}} {after} __out }}"), prio: 0 });
             }
-            // R65: `self.iter_transitions().filter_map(move |PAT| B)` as the value of a function extracted by R64
+            // R65: `self.iter_transitions().filter_map(move |PAT| B)` (or `.map(|PAT| E)`, or on `self.iter_inputs()`) as the value of a function extracted by R64
             //   -> `{ let __src = self.iter_transitions(); let ghost __src_g = __src@; let mut __out = Vec::new();
             //         for PAT in __src { if let Some(__v) = B { __out.push(__v); } } __out }`
             syn::Expr::MethodCall(m)
-                if self.rw.on("R65") && m.method == "filter_map" && m.args.len() == 1
-                    && is_method(&m.receiver, "iter_transitions").map_or(false, |it| it.args.is_empty()) =>
+                if self.rw.on("R65") && (m.method == "filter_map" || m.method == "map") && m.args.len() == 1
+                    && (is_method(&m.receiver, "iter_transitions").map_or(false, |it| it.args.is_empty()) || is_method(&m.receiver, "iter_inputs").map_or(false, |it| it.args.is_empty())) =>
             {
+                let is_map = m.method == "map";
                 let cl = match &m.args[0] {
                     syn::Expr::Closure(c) if c.inputs.len() == 1 && !closure_has_control_flow(&c.body) => c,
                     _ => die("unsupported", &format!("{}: R65 side condition violated (not a one-parameter closure without control flow)", self.rw.fn_path)),
@@ -1065,8 +1066,9 @@ impl<'ast, 'r, 'a> Visit<'ast> for Collector<'r, 'a> {
                         after.push_str(&format!("\nproof {{\n{}}}\n", p.text));
                     }
                 }
-                self.rw.log.push(format!("R65 self.iter_transitions().filter_map(..) -> loop {key} collecting into a vector"));
-                self.edits.push(Edit { range: rng(e), text: format!("{{ let __src = {src}; let ghost __src_g = __src@; let mut __out{out_ty} = Vec::new(); for {pat} in {iter}__src {hdr}{{ {bs}if let Some(__v) = {body} {{ __out.push(__v); }} {be}}} {after} __out }}"), prio: 0 });
+                let push = if is_map { format!("__out.push({body});") } else { format!("if let Some(__v) = {body} {{ __out.push(__v); }}") };
+                self.rw.log.push(format!("R65 self.iter_transitions() / iter_inputs() .filter_map(..) / .map(..) -> loop {key} collecting into a vector"));
+                self.edits.push(Edit { range: rng(e), text: format!("{{ let __src = {src}; let ghost __src_g = __src@; let mut __out{out_ty} = Vec::new(); for {pat} in {iter}__src {hdr}{{ {bs}{push} {be}}} {after} __out }}"), prio: 0 });
             }
             // R66: `M.iter().flat_map(|(A, B)| B.iter().map(|(C, D)| E))` as the value of a function extracted by R64
             //   (M the transition table) -> `{ let mut __out = Vec::new(); for (A, B) in __tmap_entries(&M) { for (C, D) in __imap_entries(&(B)) { __out.push(E); } } __out }`
